@@ -711,6 +711,52 @@ def gen_shadow(rng):
     return case
 
 
+def gen_fine(rng, long_ok=False, length=None):
+    """very fine ramps: per-iteration voltage changes of c * 1e-9 (the documented increment resolution) for
+    c in {0.3, 0.5, 0.9, 1, 1.1, 2.5}, repeated 3 ... 20000 times, as a 1D ramp, as the slow per-line compensation
+    channel of a 2D scan, and as a sub-resolution base difference between two holds of one register. Decimal
+    stream: every step is judged |VM - default| <= 1e-9 (per step, not cumulative)."""
+    def fl(x):
+        return repr(float(x))
+
+    def const(x):
+        return [fl(x), 'f']
+    c = rng.choice([0.3, 0.5, 0.9, 0.9, 1.0, 1.1, 2.5]) * rng.choice([1, 1, -1])
+    slope = c * 1e-9
+    n = rng.choice([3, 4, 7, 20, 60, 250]) if not long_ok else (length or rng.choice([2000, 20000]))
+    kind = rng.choice(['ramp', 'ramp', 'scan', 'scan', 'basediff'])
+    if long_ok:
+        kind = 'ramp'
+    b0 = rng.choice([0.0, 0.25, -0.5, 0.1])
+    if kind == 'ramp':
+        pt = {'t': 'for', 'idx': 'i', 'rng': [0, n, 1] if rng.random() < 0.7 else [n, 0, -1],
+              'body': {'t': 'hold', 'dur': '1', 'v': {'a': {'base': const(b0), 'coef': [['i', const(slope)]]}}}}
+        chans = ['a']
+    elif kind == 'scan':
+        m = rng.choice([3, 5, 12, 40])
+        n = rng.choice([2, 3, 5])
+        vb = {'base': const(b0), 'coef': [['j', const(slope)]]}
+        if rng.random() < 0.4:
+            vb['coef'].append(['i', const(rng.choice([0.3, 0.9, 1.1]) * 1e-9)])
+        hold = {'t': 'hold', 'dur': '1', 'v': {'a': {'base': const(-1.0), 'coef': [['i', const(0.01)]]}, 'b': vb}}
+        body = {'t': 'for', 'idx': 'i', 'rng': [0, n, 1], 'body': hold}
+        if rng.random() < 0.3:
+            lead = {'t': 'hold', 'dur': '2', 'v': {'a': {'base': const(0.5), 'coef': []},
+                                                   'b': {'base': const(b0), 'coef': [['j', const(slope)]]}}}
+            body = {'t': 'seq', 'ch': [lead, body]}
+        pt = {'t': 'for', 'idx': 'j', 'rng': [0, m, 1], 'body': body}
+        chans = ['a', 'b']
+        rng.shuffle(chans)
+    else:
+        big = rng.choice([0.01, 2e-9, 0.0])
+        h1 = {'t': 'hold', 'dur': '1', 'v': {'a': {'base': const(b0), 'coef': [['i', const(big + slope)]]}}}
+        h2 = {'t': 'hold', 'dur': '1', 'v': {'a': {'base': const(b0 + rng.choice([0.4e-9, 0.9e-9, -0.7e-9])),
+                                                   'coef': [['i', const(big + slope)]]}}}
+        pt = {'t': 'for', 'idx': 'i', 'rng': [0, n, 1], 'body': {'t': 'seq', 'ch': [h1, h2]}}
+        chans = ['a']
+    return {'pt': pt, 'channels': chans, 'gt': None, 'exact': False}
+
+
 def exhaustive_cases():
     """all wrapper chains of length <= 3 over {for len 1,2,3 (step +1/-2), rep 1,2} around three body shapes, plus the
     sibling shape [hold ; chain(hold)], one channel; indices always used by the innermost hold"""
@@ -1012,7 +1058,7 @@ def _decide(ctx, o, ans, family):
 
 def _short(h, n=14):
     def f(x):
-        return 'nan' if x == 'nan' else (str(float(x)) if x.denominator in (1, 2, 4, 8, 16, 32, 64) else str(x))
+        return 'nan' if x == 'nan' else (str(float(x)) if x.denominator in (1, 2, 4, 8, 16, 32, 64) else '%.13g' % float(x))
     s = ', '.join('%s:%s' % (f(t), '/'.join(f(x) for x in v)) for t, v in h[:n])
     return '[%s%s]' % (s, ', …(%d)' % len(h) if len(h) > n else '')
 
@@ -1185,6 +1231,10 @@ def run(ctx: core.Ctx):
     process([gen_shared(rng) for _ in range(ctx.n(200, 6000))], 'shared-registers')
     rng = ctx.fork('shadowed-index')
     process([gen_shadow(rng) for _ in range(ctx.n(200, 5000))], 'shadowed-index')
+    rng = ctx.fork('fine-steps')
+    process([gen_fine(rng) for _ in range(ctx.n(150, 3000))] +
+            [gen_fine(rng, long_ok=True, length=n) for n in ([2000, 20000] if ctx.quick else [2000, 20000] * 15)],
+            'fine-steps')
     rng = ctx.fork('random-general')
     process([Gen(rng, exact=False, p_int=0.0).case() for _ in range(ctx.n(150, 8000))], 'random-general')
     rng = ctx.fork('malformed')
